@@ -11,15 +11,15 @@ FUNCTIONS = ['emd.sift._find_extrema', 'emd.sift.compute_parabolic_extrema', 'em
              'emd.sift.interp_envelope(ret_extrema=True)']
 BOUNDS = {
     'quick': 'N <= 6 unbounded symbolic real samples with ties (extrema clause; subsumes every 3-level sequence up to that length), '
-             'N = 6 for padding (pad widths 0..5, peaks/troughs/abs_peaks) and for envelopes (pad widths 1..3, {splrep, pchip, mono_pchip} x '
+             'N = 6 for padding (pad widths 0..5, peaks/troughs/abs_peaks; user-supplied magnitude padding mode mean) and for envelopes (pad widths 1..3, {splrep, pchip, mono_pchip} x '
              '{upper, lower, combined}); parabolic refinement: N <= 5 (extrema formula) and N = 5 (envelope grid)',
     'thorough': 'N <= 9 (extrema), N <= 7 (padding, envelopes, pad widths 1..5) and N = 8 for pad width 2 (splrep), parabolic N <= 7 (formula) / 6 (envelope)',
 }
 OUTSIDE = 'longer signals; float rounding inside FITPACK/pchip; interp_envelope with pad_width=0 (unpadded interior extrema can never ' \
-          'cover samples 0..N-1, the routine raises for every signal - not asserted); custom np.pad options (C06)'
+          'cover samples 0..N-1, the routine raises for every signal - not asserted); custom location-padding options (C06 checks that they arrive)'
 ASSUMPTIONS = ['splrep/splev(k=3,s=0) = exact rational not-a-knot cubic spline (validated against FITPACK on every knot set)',
                'pchip / symbolic-knot splines are uninterpreted interpolants: only evaluation abscissae and knot values are compared']
-REQUIRED_CLASSES = ['extrema:two-peaks', 'extrema:tie-plateau', 'pad:repadded', 'env:returned', 'env:none', 'parab:refined']
+REQUIRED_CLASSES = ['extrema:two-peaks', 'extrema:tie-plateau', 'pad:repadded', 'pad:custom-magnitude-mode', 'env:returned', 'env:none', 'parab:refined']
 EXPECTED_LABELS = ['extrema-exact', 'troughs-exact', 'abs-peaks-exact', 'parabolic-vertex', 'padding-rule', 'padding-never-raises',
                    'envelope-length', 'envelope-on-integer-grid', 'envelope-through-extrema', 'envelope-never-raises']
 BUDGET_S = {'quick': 170, 'thorough': 900}
@@ -38,6 +38,10 @@ def configs(tier):
             if q and mode == 'abs_peaks' and w not in (2,):
                 continue
             out.append(('pad-N%d-w%d-%s' % (6 if q else 7, w, mode), {'kind': 'pad', 'N': 6 if q else 7, 'w': w, 'mode': mode}))
+    # user-supplied magnitude padding: np.pad's own meaning of the option, nothing inherited from the default (median, stat_length 1)
+    for mp in (('mean',) if q else ('mean', 'maximum')):
+        for w in ((2,) if q else (1, 2, 3)):
+            out.append(('pad-N%d-w%d-peaks-mag-%s' % (6 if q else 7, w, mp), {'kind': 'pad', 'N': 6 if q else 7, 'w': w, 'mode': 'peaks', 'magpad': mp}))
     for method in ('splrep', 'pchip', 'mono_pchip'):
         for mode in ('upper', 'lower', 'combined'):
             for w in ((1, 2, 3) if q else (1, 2, 3, 4, 5)):
@@ -120,7 +124,13 @@ def harness(h):
         src = -x if mode == 'troughs' else (abs(x) if mode == 'abs_peaks' else x)
         ref = strict_maxima(src, N)
         try:
-            locs, mags = S.get_padded_extrema(x, pad_width=w, mode=mode)
+            magpad = h.params.get('magpad')
+            if magpad:
+                mpo = {'mean': {'mode': 'mean'}, 'maximum': {'mode': 'maximum'}, 'mean-stat2': {'mode': 'mean', 'stat_length': 2}}[magpad]
+                locs, mags = S.get_padded_extrema(x, pad_width=w, mode=mode, mag_pad_opts=dict(mpo))
+                h.note('pad:custom-magnitude-mode')
+            else:
+                locs, mags = S.get_padded_extrema(x, pad_width=w, mode=mode)
         except Exception as e:
             h.fail('padding-never-raises', '%s: %s' % (type(e).__name__, e))
             return
@@ -176,8 +186,19 @@ def harness(h):
                 ok, why = False, 'not the mirrored locations %s' % cur
         h.check(ok, 'padding-rule', (why, locs, ref))
         if ok:
-            want = [vals[0]] * k + vals + [vals[-1]] * k
-            h.check_eq(np.array(mags, dtype=object), np.array(want, dtype=object), 'padding-rule', 'magnitudes (edge median)')
+            left, right = vals[0], vals[-1]
+            if magpad == 'mean':
+                left = right = sum(vals[1:], vals[0]) / len(vals)
+            elif magpad == 'maximum':
+                m = vals[0]
+                for v in vals[1:]:
+                    if bool(v > m):
+                        m = v
+                left = right = m
+            elif magpad == 'mean-stat2':
+                left, right = (vals[0] + vals[1]) / 2, (vals[-1] + vals[-2]) / 2
+            want = [left] * k + vals + [right] * k
+            h.check_eq(np.array(mags, dtype=object), np.array(want, dtype=object), 'padding-rule', 'magnitudes (%s)' % (magpad or 'edge median'))
     else:
         method, mode, w, parab = h.params['method'], h.params['mode'], h.params['w'], h.params['parab']
         src = -x if mode == 'lower' else (abs(x) if mode == 'combined' else x)
